@@ -271,6 +271,7 @@ func (w *World) MineOnTip(t *Tape, carryPct int) *BlockRec {
 	w.SyncTips()
 	w.Announce(b)
 	w.Stat("op.mine")
+	w.logBlock("mine", b)
 	return b
 }
 
@@ -326,6 +327,9 @@ func (w *World) Fork(t *Tape, depth, extra int, keepPct int, innerSteps int) *Bl
 		w.runSteps(t.Int(innerSteps + 1))
 	}
 	w.Announce(branch[len(branch)-1])
+	for _, b := range branch {
+		w.logBlock(fmt.Sprintf("fork(depth %d)", depth), b)
+	}
 	w.Stat("op.fork")
 	w.Stats[fmt.Sprintf("op.fork.depth%d", minInt(depth, 6))]++
 	return branch[len(branch)-1]
@@ -354,6 +358,7 @@ func (w *World) AnnounceLoose(t *Tape) *wire.MsgTx {
 	}
 	w.Gen.Mempool = append(w.Gen.Mempool, tx)
 	w.AnnounceTx(tx)
+	w.Logf("announce unconfirmed %s", describeTx(tx))
 	w.Stat("op.unconfirmed")
 	return tx
 }
@@ -435,7 +440,7 @@ func (w *World) CheckWallet(inst *Instance, ws *WalletState, class string) *Ledg
 	l := ComputeLedger(chain, own)
 	want := l.ModelObs(id, addrOf, addrs)
 	if d := DiffObs(got, want); d != "" {
-		w.Violate(class+".ledger-mismatch", "wallet %s at height %d: %s", id, l.Tip, d)
+		w.Violate(class+".ledger-mismatch", "wallet %s at height %d: %s | wallet errors: %q", id, l.Tip, d, w.RecentErrors(4))
 		if w.LogOn {
 			es, _ := DumpDB(inst.DB)
 			for _, e := range es {
@@ -468,3 +473,54 @@ func (w *World) CheckLedger(inst *Instance, class string) {
 		w.CheckWallet(inst, ws, class)
 	}
 }
+
+func describeTx(tx *wire.MsgTx) string {
+	s := tx.TxHash().String()[:10] + " in["
+	if !tx.IsCoinBaseTx() {
+		for _, in := range tx.TxIn {
+			s += fmt.Sprintf("%s:%d ", in.PreviousOutPoint.Hash.String()[:10], in.PreviousOutPoint.Index)
+		}
+	}
+	s += "] out["
+	for _, out := range tx.TxOut {
+		cls, holder, _, _, ok := classify(out.PkScript)
+		if ok {
+			s += fmt.Sprintf("%d:%x:%d ", cls, holder[:3], out.Value)
+		} else {
+			s += "other "
+		}
+	}
+	return s + "]"
+}
+
+func (w *World) logBlock(what string, b *BlockRec) {
+	if !w.LogOn {
+		return
+	}
+	w.Logf("%s block h=%d %s", what, b.Height, b.Hash.String()[:10])
+	for _, tx := range b.Msg.Transactions[1:] {
+		w.Logf("    tx %s", describeTx(tx))
+	}
+}
+
+// PreMine extends the best chain by n blocks before any wallet follows it
+// (used for long-chain scenarios: multi-batch rescans, start-up fast-forward).
+// Blocks carry only a coinbase; one in payEvery blocks is drawn from the
+// generator with transactions. Nothing is announced.
+func (w *World) PreMine(t *Tape, n int, payEvery int) {
+	for i := 0; i < n; i++ {
+		tip := w.Node.Tip()
+		var b *BlockRec
+		if payEvery > 0 && i%payEvery == payEvery-1 {
+			b = w.Gen.GenBlock(t, tip, nil, 0)
+		} else {
+			b = w.Gen.NewBlock(zeroTape, tip, nil)
+		}
+		w.Node.Attach(b)
+	}
+	w.SyncTips()
+	w.Stats["op.premined_blocks"] += n
+}
+
+// zeroTape always answers 0 (coinbase to the first stranger).
+var zeroTape = &Tape{}
